@@ -473,6 +473,20 @@ Qed.
 Lemma RL_maint_finish fuel mid wo w : RL w (maint_finish fuel nw mid wo w).
 Proof. unfold maint_finish. eapply RL_trans; [apply RL_restore|apply RL_maint_call, mlab_finish_post; constructor]. Qed.
 
+Lemma RL_rewire fuel w d ups : RL w (rewire fuel nw w d ups).
+Proof.
+  unfold rewire. set (x := getd w d). destruct (existsb (bad_up d w) ups); [Lt|].
+  match goal with |- RL w (fold_left _ ups (updd (fold_left _ _ ?w0') d _)) => set (w0 := w0') end.
+  assert (R0 : RL w w0).
+  { unfold w0. destruct (is_holder (d_kind x)); [|Lt]. destruct (d_wait_since x); [|Lt]. apply RL_dev; kl. }
+  apply (RL_trans w w0); [exact R0|].
+  set (w1 := fold_left (fun w' u => updd w' u (t_down_del d)) (d_up x) w0).
+  apply (RL_trans w0 w1); [unfold w1; apply RL_fold; intros w' u; apply RL_dev; intro y; split; reflexivity|].
+  apply (RL_trans w1 (updd w1 d (t_up ups))); [apply RL_dev; intro y; split; reflexivity|].
+  apply RL_fold. intros w' u. destruct (existsb (Z.eqb d) (d_down (getd w' u))); [Lt|].
+  apply (RL_trans w' (updd w' u (t_down_add d))); [apply RL_dev; intro y; split; reflexivity|apply RL_signal].
+Qed.
+
 Lemma RL_run_uop fuel w o : RL w (run_uop fuel nw w o).
 Proof.
   unfold run_uop. destruct (negb (okf w)); [Lt|]. destruct o.
@@ -484,6 +498,7 @@ Proof.
     match goal with |- context[t_budget ?z] => ldev w d (t_budget z) end.
     destruct (_ <? 1); [apply RL_sched_pass|Lt].
   - apply RL_dev; kl.
+  - apply RL_rewire.
   - apply RL_rm_call, rlab_add, rlab_clean.
   - apply RL_create_wo.
 Qed.
